@@ -44,6 +44,16 @@ fn check_new(i: u64, acc: &mut Acc) {
         if let Some(p) = padded.iter().find(|p| !p.contains(&shown) || p.trim_matches(|c| c == ' ' || c == '*' || c == '0').len() > shown.len()) {
             return acc.fail("new", format!("new {h} {m}"), format!("new({h},{m}) printed with a width / alignment flag gives {p:?}, which does not contain the zero-padded {shown:?}"));
         }
+        // the alternate, sign and precision flags, and the pretty Debug form (of the value and of a container): the
+        // same HH:MM (S-C19-h prints times after 24:00 wrapped with a day marker under `#`)
+        let flagged = [format!("{t:#}"), format!("{t:+}"), format!("{t:#?}"), format!("{t:?}"), format!("{t:.9}")];
+        if let Some(p) = flagged.iter().find(|p| **p != shown) {
+            return acc.fail("new", format!("new {h} {m}"), format!("new({h},{m}) printed under a `#` / `+` / precision flag or as pretty Debug gives {p:?} instead of {shown:?}"));
+        }
+        let nested = format!("{:#?}", Some(t));
+        if !nested.contains(&shown) {
+            return acc.fail("new", format!("new {h} {m}"), format!("pretty Debug of Some(new({h},{m})) is {nested:?}, which does not contain {shown:?}"));
+        }
         let conv: Result<NaiveTime, ()> = t.try_into();
         let exp_conv = NaiveTime::from_hms_opt(h.into(), m.into(), 0).filter(|_| h < 24);
         if conv.ok() != exp_conv {
@@ -189,7 +199,7 @@ fn consts(_i: u64, acc: &mut Acc) {
 fn extra(_tier: Tier, _seed: u64) -> Vec<SubOutcome> {
     let n_valid = (MAX + 1) as u64;
     vec![
-        par_enumerate("new", "all (hour, minute) in u8 x u8: new/accessors/Display (also under width, alignment, fill and zero flags)/TryInto<NaiveTime>; non-trivial = accepted pair or a pair next to the 48:00 / :60 limits", 65536, check_new),
+        par_enumerate("new", "all (hour, minute) in u8 x u8: new/accessors/Display (also under width, alignment, fill, zero, alternate, sign and precision flags, pretty Debug of the value and of a container)/TryInto<NaiveTime>; non-trivial = accepted pair or a pair next to the 48:00 / :60 limits", 65536, check_new),
         par_enumerate("from_mins", "all u16 minute counts; non-trivial = within 00:00..49:00", 65536, check_from_mins),
         par_enumerate("add_minutes", "all 2881 valid times x all i16 offsets vs integer addition; non-trivial = result or operand on/next to 00:00, 24:00, 48:00 or just outside the range", n_valid << 16, check_add_minutes),
         par_enumerate("add_hours", "all 2881 valid times x all i8 offsets vs integer addition; non-trivial = boundary operand/result or result within one hour outside the range", n_valid << 8, check_add_hours),
